@@ -63,6 +63,8 @@ func oneProof(stdout string) bool {
 
 func expectFail(name string, r res) {
 	switch {
+	case strings.Contains(r.stderr, "panic:") || strings.Contains(r.stderr, "goroutine 1 ["):
+		emit("cli\t"+name, "the command panicked: "+tail(r.stderr))
 	case r.code == 0:
 		emit("cli\t"+name, "exit status 0")
 	case r.stdout != "":
@@ -101,6 +103,22 @@ func main() {
 	} else {
 		emit("cli\tconvert-to-raw", "ok")
 	}
+	// converting a file onto itself must not destroy it
+	inplace := filepath.Join(*dir, "del.inplace.keys")
+	if b, err := os.ReadFile(keys["deletion"]); err == nil {
+		os.WriteFile(inplace, b, 0o644)
+		r = run(nil, "convert-to-raw", "--input", inplace, "--output", inplace)
+		after, _ := os.ReadFile(inplace)
+		switch {
+		case r.code != 0:
+			emit("cli\tconvert-to-raw in place", fmt.Sprintf("exit %d %s (file now %d bytes, was %d)", r.code, tail(r.stderr), len(after), len(b)))
+		case len(after) != len(b):
+			emit("cli\tconvert-to-raw in place", fmt.Sprintf("file changed size: %d -> %d", len(b), len(after)))
+		default:
+			emit("cli\tconvert-to-raw in place", "ok")
+		}
+	}
+	os.Remove(inplace)
 	other := map[string]string{"insertion": "deletion", "deletion": "insertion"}
 	for _, mode := range []string{"insertion", "deletion"} {
 		// the documented pipeline: gen-test-params | prove | verify
